@@ -741,9 +741,13 @@ func (w *walker) val(s *state, fr *frame, v ssa.Value) *Term {
 		}
 		return constTerm(x.Value)
 	case *ssa.Global:
-		l := &Loc{Root: "G:" + load.Rel(x.Pkg.Pkg) + "." + x.Name(), Len: -1, NonNil: true}
+		gname := x.Name()
+		if o := x.Object(); o != nil {
+			gname = load.ObjSimpleName(o)
+		}
+		l := &Loc{Root: "G:" + load.Rel(x.Pkg.Pkg) + "." + gname, Len: -1, NonNil: true}
 		if !load.IsModule(x.Pkg.Pkg) {
-			l.Root = "G:" + x.Pkg.Pkg.Name() + "." + x.Name()
+			l.Root = "G:" + x.Pkg.Pkg.Name() + "." + gname
 		}
 		return refTerm(l)
 	case *ssa.Function:
